@@ -204,6 +204,10 @@ func (s *orRuleSetLoader) makeTypeFromRuleSet(lex lexeme.LexEvent) {
 	// dropped before the rule-set is looked at, not in the middle (CompileBasic
 	// drops them too): the same rule-set with and without them is the same type.
 	schemaCompiler{}.falseConstraints(s.typeRoot)
+	if s.typeRoot.NumberOfConstraints() == 0 {
+		// Nothing but such flags: as empty as {}.
+		panic(errors.ErrEmptyRuleSet)
+	}
 
 	typeConstraint := s.typeRoot.Constraint(constraint.TypeConstraintType)
 	if typeConstraint != nil && s.typeRoot.NumberOfConstraints() == 1 {
